@@ -1,0 +1,268 @@
+//! Read-only wrappers around crate-private items, compiled only with `--features verif_hooks`.
+//! Nothing here changes behaviour; it only makes crate-private evaluators and helper-column
+//! generators reachable from the out-of-tree verification harness.
+
+#[cfg(not(feature = "std"))]
+use alloc::vec::Vec;
+
+use plonky2::field::extension::{Extendable, FieldExtension};
+use plonky2::field::packed::PackedField;
+use plonky2::field::polynomial::PolynomialValues;
+use plonky2::field::types::Field;
+use plonky2::hash::hash_types::RichField;
+use plonky2::iop::ext_target::ExtensionTarget;
+use plonky2::iop::target::Target;
+use plonky2::plonk::circuit_builder::CircuitBuilder;
+
+use crate::constraint_consumer::{ConstraintConsumer, RecursiveConstraintConsumer};
+use crate::cross_table_lookup::{CrossTableLookup, CtlCheckVars, CtlCheckVarsTarget};
+use crate::lookup::{
+    Column, Filter, GrandProductChallenge, GrandProductChallengeSet, Lookup, LookupCheckVars,
+    LookupCheckVarsTarget,
+};
+use crate::stark::Stark;
+
+/// `vanishing_poly::eval_l_0_and_l_last`.
+pub fn eval_l_0_and_l_last<F: Field>(log_n: usize, x: F) -> (F, F) {
+    crate::vanishing_poly::eval_l_0_and_l_last(log_n, x)
+}
+
+/// `vanishing_poly::eval_l_0_and_l_last_circuit`.
+pub fn eval_l_0_and_l_last_circuit<F: RichField + Extendable<D>, const D: usize>(
+    builder: &mut CircuitBuilder<F, D>,
+    n: ExtensionTarget<D>,
+    g: ExtensionTarget<D>,
+    x: ExtensionTarget<D>,
+    z_x: ExtensionTarget<D>,
+) -> (ExtensionTarget<D>, ExtensionTarget<D>) {
+    crate::vanishing_poly::eval_l_0_and_l_last_circuit(builder, n, g, x, z_x)
+}
+
+/// `vanishing_poly::eval_vanishing_poly`; the lookup variables are passed as
+/// `(local_values, next_values, challenges)`.
+pub fn eval_vanishing_poly<F, FE, P, S, const D: usize, const D2: usize>(
+    stark: &S,
+    vars: &S::EvaluationFrame<FE, P, D2>,
+    lookups: &[Lookup<F>],
+    lookup_vars: Option<(Vec<P>, Vec<P>, Vec<F>)>,
+    ctl_vars: Option<&[CtlCheckVars<F, FE, P, D2>]>,
+    consumer: &mut ConstraintConsumer<P>,
+) where
+    F: RichField + Extendable<D>,
+    FE: FieldExtension<D2, BaseField = F>,
+    P: PackedField<Scalar = FE>,
+    S: Stark<F, D>,
+{
+    let lookup_vars = lookup_vars.map(|(local_values, next_values, challenges)| LookupCheckVars {
+        local_values,
+        next_values,
+        challenges,
+    });
+    crate::vanishing_poly::eval_vanishing_poly::<F, FE, P, S, D, D2>(
+        stark,
+        vars,
+        lookups,
+        lookup_vars,
+        ctl_vars,
+        consumer,
+    )
+}
+
+/// `vanishing_poly::eval_vanishing_poly_circuit`; the lookup variables are passed as
+/// `(local_values, next_values, challenges)`.
+pub fn eval_vanishing_poly_circuit<F, S, const D: usize>(
+    builder: &mut CircuitBuilder<F, D>,
+    stark: &S,
+    vars: &S::EvaluationFrameTarget,
+    lookup_vars: Option<(Vec<ExtensionTarget<D>>, Vec<ExtensionTarget<D>>, Vec<Target>)>,
+    ctl_vars: Option<&[CtlCheckVarsTarget<F, D>]>,
+    consumer: &mut RecursiveConstraintConsumer<F, D>,
+) where
+    F: RichField + Extendable<D>,
+    S: Stark<F, D>,
+{
+    let lookup_vars =
+        lookup_vars.map(|(local_values, next_values, challenges)| LookupCheckVarsTarget {
+            local_values,
+            next_values,
+            challenges,
+        });
+    crate::vanishing_poly::eval_vanishing_poly_circuit::<F, S, D>(
+        builder,
+        stark,
+        vars,
+        lookup_vars,
+        ctl_vars,
+        consumer,
+    )
+}
+
+/// `lookup::eval_packed_lookups_generic`.
+pub fn eval_packed_lookups_generic<F, FE, P, S, const D: usize, const D2: usize>(
+    stark: &S,
+    lookups: &[Lookup<F>],
+    vars: &S::EvaluationFrame<FE, P, D2>,
+    local_values: Vec<P>,
+    next_values: Vec<P>,
+    challenges: Vec<F>,
+    yield_constr: &mut ConstraintConsumer<P>,
+) where
+    F: RichField + Extendable<D>,
+    FE: FieldExtension<D2, BaseField = F>,
+    P: PackedField<Scalar = FE>,
+    S: Stark<F, D>,
+{
+    crate::lookup::eval_packed_lookups_generic::<F, FE, P, S, D, D2>(
+        stark,
+        lookups,
+        vars,
+        LookupCheckVars {
+            local_values,
+            next_values,
+            challenges,
+        },
+        yield_constr,
+    )
+}
+
+/// `lookup::eval_ext_lookups_circuit`.
+pub fn eval_ext_lookups_circuit<F: RichField + Extendable<D>, S: Stark<F, D>, const D: usize>(
+    builder: &mut CircuitBuilder<F, D>,
+    stark: &S,
+    vars: &S::EvaluationFrameTarget,
+    local_values: Vec<ExtensionTarget<D>>,
+    next_values: Vec<ExtensionTarget<D>>,
+    challenges: Vec<Target>,
+    yield_constr: &mut RecursiveConstraintConsumer<F, D>,
+) {
+    crate::lookup::eval_ext_lookups_circuit::<F, S, D>(
+        builder,
+        stark,
+        vars,
+        LookupCheckVarsTarget {
+            local_values,
+            next_values,
+            challenges,
+        },
+        yield_constr,
+    )
+}
+
+/// `lookup::lookup_helper_columns`.
+pub fn lookup_helper_columns<F: Field>(
+    lookup: &Lookup<F>,
+    trace_poly_values: &[PolynomialValues<F>],
+    challenge: F,
+    constraint_degree: usize,
+) -> Vec<PolynomialValues<F>> {
+    crate::lookup::lookup_helper_columns(lookup, trace_poly_values, challenge, constraint_degree)
+}
+
+/// Constructor for [`CtlCheckVars`] (its fields are crate-private).
+pub fn ctl_check_vars<'a, F, FE, P, const D2: usize>(
+    helper_columns: Vec<P>,
+    local_z: P,
+    next_z: P,
+    challenges: GrandProductChallenge<F>,
+    columns: Vec<&'a [Column<F>]>,
+    filter: Vec<Filter<F>>,
+) -> CtlCheckVars<'a, F, FE, P, D2>
+where
+    F: Field,
+    FE: FieldExtension<D2, BaseField = F>,
+    P: PackedField<Scalar = FE>,
+{
+    CtlCheckVars {
+        helper_columns,
+        local_z,
+        next_z,
+        challenges,
+        columns,
+        filter,
+    }
+}
+
+/// Constructor for [`CtlCheckVarsTarget`] (its fields are crate-private).
+pub fn ctl_check_vars_target<F: Field, const D: usize>(
+    helper_columns: Vec<ExtensionTarget<D>>,
+    local_z: ExtensionTarget<D>,
+    next_z: ExtensionTarget<D>,
+    challenges: GrandProductChallenge<Target>,
+    columns: Vec<Vec<Column<F>>>,
+    filter: Vec<Filter<F>>,
+) -> CtlCheckVarsTarget<F, D> {
+    CtlCheckVarsTarget {
+        helper_columns,
+        local_z,
+        next_z,
+        challenges,
+        columns,
+        filter,
+    }
+}
+
+/// `cross_table_lookup::eval_cross_table_lookup_checks`.
+pub fn eval_cross_table_lookup_checks<F, FE, P, S, const D: usize, const D2: usize>(
+    vars: &S::EvaluationFrame<FE, P, D2>,
+    ctl_vars: &[CtlCheckVars<F, FE, P, D2>],
+    consumer: &mut ConstraintConsumer<P>,
+    constraint_degree: usize,
+) where
+    F: RichField + Extendable<D>,
+    FE: FieldExtension<D2, BaseField = F>,
+    P: PackedField<Scalar = FE>,
+    S: Stark<F, D>,
+{
+    crate::cross_table_lookup::eval_cross_table_lookup_checks::<F, FE, P, S, D, D2>(
+        vars,
+        ctl_vars,
+        consumer,
+        constraint_degree,
+    )
+}
+
+/// `cross_table_lookup::eval_cross_table_lookup_checks_circuit`.
+pub fn eval_cross_table_lookup_checks_circuit<
+    S: Stark<F, D>,
+    F: RichField + Extendable<D>,
+    const D: usize,
+>(
+    builder: &mut CircuitBuilder<F, D>,
+    vars: &S::EvaluationFrameTarget,
+    ctl_vars: &[CtlCheckVarsTarget<F, D>],
+    consumer: &mut RecursiveConstraintConsumer<F, D>,
+    constraint_degree: usize,
+) {
+    crate::cross_table_lookup::eval_cross_table_lookup_checks_circuit::<S, F, D>(
+        builder,
+        vars,
+        ctl_vars,
+        consumer,
+        constraint_degree,
+    )
+}
+
+/// `cross_table_lookup::cross_table_lookup_data` (which runs `partial_sums` for every looking
+/// and looked table); returns, per table, the list of `(helper_columns, z)` pairs in the order
+/// of that table's `CtlData::zs_columns`.
+pub fn cross_table_lookup_data<F: RichField, const D: usize, const N: usize>(
+    trace_poly_values: &[Vec<PolynomialValues<F>>; N],
+    cross_table_lookups: &[CrossTableLookup<F>],
+    ctl_challenges: &GrandProductChallengeSet<F>,
+    constraint_degree: usize,
+) -> Vec<Vec<(Vec<PolynomialValues<F>>, PolynomialValues<F>)>> {
+    let data = crate::cross_table_lookup::cross_table_lookup_data::<F, D, N>(
+        trace_poly_values,
+        cross_table_lookups,
+        ctl_challenges,
+        constraint_degree,
+    );
+    data.iter()
+        .map(|d| {
+            d.zs_columns
+                .iter()
+                .map(|z| (z.helper_columns.clone(), z.z.clone()))
+                .collect()
+        })
+        .collect()
+}
